@@ -622,6 +622,9 @@ func permOf(rng *rand.Rand, n int, k int) []int {
 
 // configurations of one case: `runs` library configurations (alternating memory / disk, walking
 // through workers x chunk counts x permutations) or one binary / law configuration.
+var c06OnlyMode = "" // --opt mode=mem|disk restricts the configurations (profiling)
+var c06DiskEvery = 2 // library level: one configuration out of c06DiskEvery uses the on-disk mode (about 15 x dearer)
+
 func configsFor(c *c06Case, level string, runs int, seed int64) []*c06Cfg {
 	if c.Cfg != nil {
 		return []*c06Cfg{c.Cfg}
@@ -638,6 +641,15 @@ func configsFor(c *c06Case, level string, runs int, seed int64) []*c06Cfg {
 			cfg.Mode = "mem"
 		} else {
 			cfg.Mode = "disk"
+		}
+		if level == "lib" {
+			cfg.Mode = "mem"
+			if x%c06DiskEvery == c06DiskEvery-1 {
+				cfg.Mode = "disk"
+			}
+		}
+		if c06OnlyMode != "" {
+			cfg.Mode = c06OnlyMode
 		}
 		cfg.Batch = []int{0, 1, 2}[(x/2)%3]
 		if level != "lib" {
@@ -887,6 +899,8 @@ func replayC06Child(env *Env) {
 		obioptions.SetBatchSize(d)
 	}
 	level := env.opt("level", "lib")
+	c06OnlyMode = env.opt("mode", "")
+	c06DiskEvery = env.optInt("diskevery", 2)
 	runs := env.optInt("runs", 4)
 	par := env.optInt("par", 4)
 	repeat := env.optInt("repeat", 1)
